@@ -117,7 +117,7 @@ class _Gen:
             if g["b"][0] in ("int", "null", "err", "exn") and g.get("sh", "i") in ("i", "in") \
                     and g["b"][0] not in ("snull", "sbad"):
                 g["b"] = self.leaf_body()
-                while g["b"][0] in ("snull", "sbad"):   # the field (hence its type) is fixed by the template
+                while g["b"][0] in ("snull", "sbad", "echo"):   # the field (hence its type / mode) is fixed by the template
                     g["b"] = self.leaf_body()
                 if g["b"][0] != "int":
                     g["sh"] = "in" if g["nn"] else "i"
